@@ -218,6 +218,11 @@ int QSexact_infeasible_test (mpq_QSdata * p,
 			mpq_set(__lres[__lsz],mpq_ILL_MAXDOUBLE);\
 		else if(__larray[__lsz] == dbl_ILL_MINDOUBLE)\
 			mpq_set(__lres[__lsz],mpq_ILL_MINDOUBLE);\
+		/* an infinity or NaN left by the double precision stage (data beyond the \
+		 * range of a double) has no rational value; mpq_set_d would raise SIGFPE. \
+		 * Zero makes the exact tests reject the vector */\
+		else if(!(__larray[__lsz] - __larray[__lsz] == 0.0))\
+			mpq_set_ui(__lres[__lsz],0UL,1UL);\
 		else mpq_EGlpNumSet(__lres[__lsz],__larray[__lsz]);\
 	}\
 	__lres;})
